@@ -110,6 +110,18 @@ func main() {
 				panic(fmt.Errorf("output file %s is the input file", target))
 			}
 		}
+
+		// The same holds if the input is a symbolic link to the file the output would replace.
+		if realIn, errIn := filepath.EvalSymlinks(in); errIn == nil {
+			if realOut, errOut := filepath.EvalSymlinks(options.out); errOut == nil {
+				realIn, errIn = filepath.Abs(realIn)
+				realOut, errOut = filepath.Abs(filepath.Join(realOut, filepath.Base(target)))
+
+				if errIn == nil && errOut == nil && realIn == realOut {
+					panic(fmt.Errorf("output file %s is the input file", target))
+				}
+			}
+		}
 		var tempFile *os.File
 		temp := ""
 
